@@ -25,7 +25,7 @@ Canonical(e) ==
    /\ IsRelabellingOf(e)                          \* the form is isomorphic to the input
    /\ e.fix = e.out                               \* and a fixed point
    /\ (e.big => LineageOK(e))
-   /\ \A p \in table : (p[1] = Key(e)) <=> (p[2] = e.out)     \* equal forms iff same class
+   /\ LET k == Key(e) IN \A p \in table : (p[1] = k) <=> (p[2] = e.out)     \* equal forms iff same class
 Next == /\ l <= Len(Rec)
         /\ ("panic" \notin DOMAIN Rec[l] /\ Canonical(Rec[l])) = TRUE
         /\ table' = table \cup {<<Key(Rec[l]), Rec[l].out>>}
